@@ -46,7 +46,10 @@ theorem applyBackward_setF (b : Bool) (s : State) (c : Change) :
     simp only [applyBackward]
     by_cases h : s.fundingHeight = some s.height
     · rw [if_pos h, if_pos (show (setF b s).fundingHeight = some (setF b s).height from h)]; rfl
-    · rw [if_neg h, if_neg (show ¬ (setF b s).fundingHeight = some (setF b s).height from h)]; rfl
+    · rw [if_neg h, if_neg (show ¬ (setF b s).fundingHeight = some (setF b s).height from h)]
+      have e : (setF b s).fundingHeight = s.fundingHeight := rfl
+      rw [e]
+      split <;> rfl
   | unilateral txid fo our htlcs =>
     simp only [applyBackward]
     by_cases h : s.uniHeight = some s.height
